@@ -688,6 +688,29 @@ static carquet_status_t load_dictionary_page_mmap(
 }
 
 /* ============================================================================
+ * Helper: positioned read on the shared stream
+ * ============================================================================
+ * All column readers of a file share reader->file, and the batch reader loads
+ * pages of different columns from different OpenMP threads.  A seek and the
+ * read that follows it must therefore not interleave with another column's.
+ * Returns the number of bytes read, or (size_t)-1 if the seek failed.
+ */
+static size_t file_read_at(FILE* file, int64_t offset, void* buf, size_t size) {
+    size_t n;
+#ifdef _OPENMP
+    #pragma omp critical(carquet_file_io)
+#endif
+    {
+        if (fseek(file, (long)offset, SEEK_SET) != 0) {
+            n = (size_t)-1;
+        } else {
+            n = fread(buf, 1, size, file);
+        }
+    }
+    return n;
+}
+
+/* ============================================================================
  * Helper: Load dictionary page (fread path)
  * ============================================================================
  */
@@ -701,15 +724,13 @@ static carquet_status_t load_dictionary_page_fread(
     FILE* file = file_reader->file;
     const parquet_column_metadata_t* col_meta = reader->col_meta;
 
-    /* Seek to dictionary page */
-    if (fseek(file, dict_offset, SEEK_SET) != 0) {
+    /* Read page header */
+    uint8_t header_buf[256];
+    size_t header_read = file_read_at(file, dict_offset, header_buf, sizeof(header_buf));
+    if (header_read == (size_t)-1) {
         CARQUET_SET_ERROR(error, CARQUET_ERROR_FILE_SEEK, "Failed to seek to dictionary");
         return CARQUET_ERROR_FILE_SEEK;
     }
-
-    /* Read page header */
-    uint8_t header_buf[256];
-    size_t header_read = fread(header_buf, 1, sizeof(header_buf), file);
     if (header_read < 8) {
         CARQUET_SET_ERROR(error, CARQUET_ERROR_FILE_READ, "Failed to read dictionary header");
         return CARQUET_ERROR_FILE_READ;
@@ -733,21 +754,21 @@ static carquet_status_t load_dictionary_page_fread(
         return CARQUET_ERROR_INVALID_PAGE;
     }
 
-    /* Seek past header and read page data */
-    if (fseek(file, dict_offset + (long)header_size, SEEK_SET) != 0) {
-        CARQUET_SET_ERROR(error, CARQUET_ERROR_FILE_SEEK, "Failed to seek past dict header");
-        return CARQUET_ERROR_FILE_SEEK;
-    }
-
-    /* Allocate and read compressed data */
+    /* Allocate and read compressed data (past the header) */
     uint8_t* compressed = malloc(page_header.compressed_page_size);
     if (!compressed) {
         CARQUET_SET_ERROR(error, CARQUET_ERROR_OUT_OF_MEMORY, "Failed to allocate compressed buffer");
         return CARQUET_ERROR_OUT_OF_MEMORY;
     }
 
-    if (fread(compressed, 1, page_header.compressed_page_size, file) !=
-        (size_t)page_header.compressed_page_size) {
+    size_t body_read = file_read_at(file, dict_offset + (int64_t)header_size,
+                                    compressed, (size_t)page_header.compressed_page_size);
+    if (body_read == (size_t)-1) {
+        free(compressed);
+        CARQUET_SET_ERROR(error, CARQUET_ERROR_FILE_SEEK, "Failed to seek past dict header");
+        return CARQUET_ERROR_FILE_SEEK;
+    }
+    if (body_read != (size_t)page_header.compressed_page_size) {
         free(compressed);
         CARQUET_SET_ERROR(error, CARQUET_ERROR_FILE_READ, "Failed to read dictionary data");
         return CARQUET_ERROR_FILE_READ;
@@ -1125,16 +1146,15 @@ static carquet_status_t load_next_page_fread(
         }
     }
 
-    /* Seek to data page */
+    /* Read page header */
     int64_t data_offset = reader->data_start_offset;
-    if (fseek(file, data_offset + reader->current_page, SEEK_SET) != 0) {
+    uint8_t header_buf[256];
+    size_t header_read = file_read_at(file, data_offset + reader->current_page,
+                                      header_buf, sizeof(header_buf));
+    if (header_read == (size_t)-1) {
         CARQUET_SET_ERROR(error, CARQUET_ERROR_FILE_SEEK, "Failed to seek to data page");
         return CARQUET_ERROR_FILE_SEEK;
     }
-
-    /* Read page header */
-    uint8_t header_buf[256];
-    size_t header_read = fread(header_buf, 1, sizeof(header_buf), file);
     if (header_read < 8) {
         CARQUET_SET_ERROR(error, CARQUET_ERROR_FILE_READ, "Failed to read page header");
         return CARQUET_ERROR_FILE_READ;
@@ -1177,21 +1197,22 @@ static carquet_status_t load_next_page_fread(
         return CARQUET_ERROR_INVALID_PAGE;
     }
 
-    /* Seek past header and read page data */
-    if (fseek(file, data_offset + reader->current_page + (long)header_size, SEEK_SET) != 0) {
-        CARQUET_SET_ERROR(error, CARQUET_ERROR_FILE_SEEK, "Failed to seek past header");
-        return CARQUET_ERROR_FILE_SEEK;
-    }
-
-    /* Allocate and read compressed data */
+    /* Allocate and read compressed data (past the header) */
     uint8_t* compressed = malloc(page_header.compressed_page_size);
     if (!compressed) {
         CARQUET_SET_ERROR(error, CARQUET_ERROR_OUT_OF_MEMORY, "Failed to allocate compressed buffer");
         return CARQUET_ERROR_OUT_OF_MEMORY;
     }
 
-    if (fread(compressed, 1, page_header.compressed_page_size, file) !=
-        (size_t)page_header.compressed_page_size) {
+    size_t body_read = file_read_at(file,
+        data_offset + reader->current_page + (int64_t)header_size,
+        compressed, (size_t)page_header.compressed_page_size);
+    if (body_read == (size_t)-1) {
+        free(compressed);
+        CARQUET_SET_ERROR(error, CARQUET_ERROR_FILE_SEEK, "Failed to seek past header");
+        return CARQUET_ERROR_FILE_SEEK;
+    }
+    if (body_read != (size_t)page_header.compressed_page_size) {
         free(compressed);
         CARQUET_SET_ERROR(error, CARQUET_ERROR_FILE_READ, "Failed to read page data");
         return CARQUET_ERROR_FILE_READ;
